@@ -31,7 +31,6 @@ type GBuf struct {
 
 var pageSize = syscall.Getpagesize()
 
-
 // NewGuarded allocates a guarded buffer of n bytes.
 func NewGuarded(n int, place int) *GBuf {
 	ps := pageSize
